@@ -236,7 +236,7 @@ func Replay(scenario string, raw json.RawMessage) []*mc.Violation {
 	var out []*mc.Violation
 	if scenario == "sort-all-sequences" {
 		var in SortIn
-		if json.Unmarshal(raw, &in) == nil {
+		if mc.UnmarshalInput(raw, &in) == nil {
 			if v := checkSort(scenario, in); v != nil {
 				out = append(out, v)
 			}
@@ -244,7 +244,7 @@ func Replay(scenario string, raw json.RawMessage) []*mc.Violation {
 		return out
 	}
 	var in TripleIn
-	if json.Unmarshal(raw, &in) == nil {
+	if mc.UnmarshalInput(raw, &in) == nil {
 		if v := checkTriple(scenario, in); v != nil {
 			out = append(out, v)
 		}
